@@ -427,7 +427,10 @@ class New(cssutils.util._BaseClass):
             # :func(expression)"
             self.append(seq, val, 'function-end', token=token)
             self.context.pop()  # pseudo is done
-            if 'pseudo-element' == context:
+            if 'negation' == self.context[-1]:
+                # :not(:nth-child(2n)): the functional pseudo was the negation argument
+                return Constants.negationend
+            elif 'pseudo-element' == context:
                 return Constants.combinator
             else:
                 return Constants.simple_selector_sequence + Constants.combinator
